@@ -291,6 +291,18 @@ def stepToks (s : DState) (toks : List String) : DState × String :=
         | some (r', p) => (s.setX x { reg with r := r' }, toString p ++ ";-")
         | none => (s, "err;-")
     | _, _ => bad
+  | ["X", "rewind", x] => match s.getX x with
+    -- Seek::rewind (a provided method of the trait): seek(Start(0)), prints the position reached
+    | some reg => match reg.r.seek (.start 0) with
+      | some (r', p) => (s.setX x { reg with r := r' }, toString p ++ ";-")
+      | none => (s, "err;-")
+    | none => bad
+  | ["X", "spos", x] => match s.getX x with
+    -- Seek::stream_position (provided): seek(Current(0))
+    | some reg => match reg.r.seek (.current 0) with
+      | some (r', p) => (s.setX x { reg with r := r' }, toString p ++ ";-")
+      | none => (s, "err;-")
+    | none => bad
   | ["X", "clone", x, x2] => match s.getX x with
     | some reg => (s.setX x2 reg, "ok;-")
     | none => bad
